@@ -386,6 +386,12 @@ class Interp:
             if body in _CH_UNMASK:
                 return ord(_CH_UNMASK[body])
             return ord(rust_unescape(body))
+        if t.endswith('}') and '::{constant#' in t:
+            parts = t.split('::')
+            for k in range(len(parts)):
+                c = self.p.simple_consts.get('::'.join(parts[k:]))
+                if c is not None:
+                    return self.const(c, fn)
         m = re.fullmatch(r'((?:\w+::)*\w+)', t)
         if m:
             path = t.split('::')
